@@ -8,6 +8,8 @@ spec = json.load(open(os.path.join(root, "tools", "checks.json")))
 import glob
 for f in sorted(glob.glob(os.path.join(root, "harness", "checks", "c*", "manifest.json"))):
     pid = os.path.basename(os.path.dirname(f)).upper()
+    if pid not in spec.get("ready", []) and "--all" not in sys.argv:
+        continue  # fragment exists but the check is still being built
     spec["checks"][pid] = json.load(open(f))
 for e in spec["engines"]:
     e["serves_properties"] = sorted(p for p, c in spec["checks"].items() if c.get("engine") == e["name"])
